@@ -31,6 +31,8 @@ pub struct DfsConfig {
     /// stop expanding a branch after it produced a violation
     pub max_violations: usize,
     pub scenario: String,
+    /// re-execute each distinct violation twice and require the identical verdict
+    pub recheck: bool,
 }
 
 impl DfsConfig {
@@ -43,6 +45,7 @@ impl DfsConfig {
             threads: crate::threads(),
             max_violations: 200,
             scenario: name.to_string(),
+            recheck: true,
         }
     }
 }
@@ -216,7 +219,7 @@ where
         if !checked.insert(v.sig.clone()) || checked.len() > 8 {
             continue;
         }
-        if v.clause == "panic" {
+        if v.clause == "panic" || !cfg.recheck {
             continue;
         }
         for _ in 0..2 {
